@@ -385,8 +385,19 @@ func parseContractFile(pkg, path string) (*ContractFile, error) {
 				return nil, errf("at outside func")
 			}
 			f := strings.Fields(rest)
+			if len(f) == 4 && f[0] == "call" && f[2] == "mark" {
+				// at call <callee>#k mark <label>: snapshot of the state just before that call,
+				// readable later in this function's clauses as oldat("label", expr)
+				callee, ord := f[1], 1
+				if i := strings.Index(callee, "#"); i >= 0 {
+					ord, _ = strconv.Atoi(callee[i+1:])
+					callee = callee[:i]
+				}
+				cur.Anchors = append(cur.Anchors, &Anchor{Callee: callee, Ord: ord, C: &Clause{Kind: "mark", Label: f[3], Expr: "true", Line: l.n}})
+				break
+			}
 			if len(f) < 4 || f[0] != "call" || (f[2] != "assert" && f[2] != "assume") {
-				return nil, errf("bad anchor clause (want: at call <callee>#k assert|assume expr)")
+				return nil, errf("bad anchor clause (want: at call <callee>#k assert|assume expr, or at call <callee>#k mark label)")
 			}
 			callee, ord := f[1], 1
 			if i := strings.Index(callee, "#"); i >= 0 {
@@ -725,6 +736,8 @@ func rewriteInner(s string) string {
 				switch id {
 				case "old":
 					id = "gcOld"
+				case "oldat":
+					id = "gcOldAt"
 				case "ite":
 					id = "gcIte"
 				}
@@ -750,6 +763,7 @@ var _ = time.Now
 // gcNow is the most recent reading of the clock in the current call.
 func gcNow() time.Time { return time.Time{} }
 func gcOld[T any](x T) T { return x }
+func gcOldAt[T any](label string, x T) T { return x }
 func gcIte[T any](c bool, a, b T) T { if c { return a }; return b }
 func gcImplies(a, b bool) bool { return !a || b }
 func gcForall[T any](f func(T) bool) bool { var z T; return f(z) }
